@@ -83,10 +83,12 @@ def exc_signature(e, tb_text=None):
     where = '?'
     try:
         frames = traceback.extract_tb(e.__traceback__)
+        import os
+        root = os.environ.get('VERIF_REPO', '/repo').rstrip('/') + '/'
         for fr in reversed(frames):
-            if fr.filename.startswith('/repo/'):
+            if fr.filename.startswith(root):
                 where = '%s.%s' % (
-                    fr.filename[len('/repo/'):-3].replace('/', '.'), fr.name)
+                    fr.filename[len(root):-3].replace('/', '.'), fr.name)
                 break
     except Exception:
         pass
